@@ -909,6 +909,11 @@ class Exec:
             raise Undecided("dict lookup with non-constant key")
         if isinstance(v, ARef):
             return self.arr_subscript(st, v, sl, e)
+        if type(v) is StrV and not v.s.startswith("<") and not isinstance(sl, ast.Slice):
+            i = z3.simplify(lit(self.ev(sl, st)))
+            if z3.is_int_value(i) and -len(v.s) <= i.as_long() < len(v.s):
+                return StrV(v.s[i.as_long()])        # a character of a concrete string
+            raise Undecided("index into a concrete string that is not definite or out of range")
         if isinstance(v, StrV) and isinstance(sl, ast.Slice):
             return StrV("<slice of a string>")       # string content is opaque
         if isinstance(v, OpaqueV):
@@ -1294,6 +1299,26 @@ class Exec:
 
     def st_AugAssign(self, n, st):
         tgt = n.target
+        if isinstance(tgt, ast.Subscript) and not isinstance(tgt.slice, (ast.Slice, ast.Tuple)):
+            base = self.ev(tgt.value, st)
+            if isinstance(base, ARef) and self.arr(st, base).rank == 1:
+                probe = st.fork()
+                idx = self.ev(tgt.slice, probe)
+                if isinstance(idx, ARef) and self.arr(probe, idx).elem == "bool":
+                    # a[mask] op= scalar: in place, the selected elements only
+                    idx = self.ev(tgt.slice, st)
+                    d, dm = self.arr(st, base), self.arr(st, idx)
+                    rhs = self.ev(n.value, st)
+                    if isinstance(rhs, ARef):
+                        raise Undecided("masked augmented assignment with an array on the right")
+                    if not z3.eq(z3.simplify(d.shape[0]), z3.simplify(dm.shape[0])):
+                        self.safe(st, "mask-length", d.shape[0] == dm.shape[0], n)
+                    i = z3.Int("i!s")
+                    new = lit(self.scalar_binop(n.op, self.sel1(d, i), rhs, st, n))
+                    if d.elem == "real":
+                        new = real(new)
+                    self.write_arr(st, base, ArrData(d.shape, z3.Lambda([i], z3.If(self.sel1(dm, i), new, self.sel1(d, i))), d.elem, d.owner, d.view_of), n)
+                    return [st]
         cur = self.ev(tgt, st)
         rhs = self.ev(n.value, st)
         if isinstance(cur, ARef):
@@ -1414,6 +1439,8 @@ class Exec:
             if isinstance(v, ARef):
                 dv = self.arr(st, v)
                 return self.sel1(dv, idx[0]) if dv.rank == 1 else self.sel2(dv, *idx)
+            if hasattr(v, "as_float") and d.elem == "real":
+                return v.as_float()          # numpy converts a numeric string stored into a float array: float(text)
             v = lit(v)
             if d.elem == "real":
                 return real(v)
@@ -1704,6 +1731,16 @@ class Exec:
         for t in n.targets:
             if isinstance(t, ast.Name):
                 st.env.pop(t.id, None)
+            elif isinstance(t, ast.Subscript) and isinstance(self.ev(t.value, st), LRef) and not isinstance(t.slice, ast.Slice):
+                # del items[i] on a concrete list with a definite index
+                ref = self.ev(t.value, st)
+                ld = st.heap[ref.sid]
+                i = z3.simplify(lit(self.ev(t.slice, st)))
+                if not (z3.is_int_value(i) and -len(ld.items) <= i.as_long() < len(ld.items)):
+                    raise Undecided("del of a list item with an index that is not definite")
+                if ld.owner != "fresh":
+                    st.writes.append((ld.owner, "del list item", n.lineno))
+                del ld.items[i.as_long()]
             else:
                 raise Undecided("del of item")
         return [st]
